@@ -151,7 +151,9 @@ class AbstractPairing(metaclass=ABCMeta):
         """Process any disconnected events that are available."""
 
     def _callback_listeners(self, event):
-        for listener in self.listeners:
+        # Iterate over a snapshot: a listener may add or remove listeners
+        # (for example itself) from inside its callback.
+        for listener in tuple(self.listeners):
             try:
                 logger.debug("callback ev:%s", event)
                 listener(event)
